@@ -805,7 +805,8 @@ class QueryBuilder(Selectable, Term):  # type:ignore[misc]
             raise QueryException("Unsupported update_field")
 
         if update_value is not None:
-            self._on_conflict_do_updates.append((field, ValueWrapper(update_value)))
+            value = update_value if isinstance(update_value, Term) else ValueWrapper(update_value)
+            self._on_conflict_do_updates.append((field, value))
         else:
             self._on_conflict_do_updates.append((field, None))
 
